@@ -366,6 +366,14 @@ def make_bools():
                               dom=lambda k: _isbit(k.v("x")), tags=tg | {"cb"}))
     ents.append(Entry("bool_not", lambda k: ~k.B("x"), ("x",), ref=lambda k: 1 - k.v("x"),
                       dom=lambda k: _isbit(k.v("x")), tags={"bool", "unop", "ret:bool"}))
+    ents.append(Entry("bool_abs", lambda k: abs(k.B("x")), ("x",), ref=lambda k: abs(k.v("x")),
+                      dom=lambda k: _isbit(k.v("x")), tags={"bool", "unop"}))
+    ents.append(Entry("bool_pos", lambda k: +k.B("x"), ("x",), ref=lambda k: +k.v("x"),
+                      dom=lambda k: _isbit(k.v("x")), tags={"bool", "unop", "ret:bool"}))
+    ents.append(Entry("bool_check_zero", lambda k: k.B("x").check_zero(), ("x",), ref=lambda k: k.v("x") == 0,
+                      dom=lambda k: _isbit(k.v("x")), tags={"bool", "check", "ret:bool"}))
+    ents.append(Entry("bool_check_positive", lambda k: k.B("x").check_positive(), ("x",), ref=lambda k: k.v("x") >= 0,
+                      dom=lambda k: _isbit(k.v("x")), tags={"bool", "check", "ret:bool"}))
     ents.append(Entry("bool_neg", lambda k: -k.B("x"), ("x",), ref=lambda k: -k.v("x"),
                       dom=lambda k: _isbit(k.v("x")), tags={"bool", "unop"}))
     for c in (0, 1, 3):
@@ -399,6 +407,11 @@ def _ite_const(k):
     return k.br.if_then_else(c, 5, 9)
 
 
+def _ite_bool_int(k):
+    c = k.B("c"); x = k.B("x"); y = k.S("y")
+    return k.br.if_then_else(c, x, y)
+
+
 def _ite_lazy(k):
     c = k.B("c"); x = k.S("x"); y = k.S("y")
     return k.br.if_then_else(c, lambda: x * y, lambda: x + y)
@@ -415,6 +428,13 @@ def make_sel():
               dom=lambda k: _isbit(k.v("c")), tags={"sel"}),
         Entry("sel_ite_const", _ite_const, ("c",), ref=lambda k: 9 + k.v("c") * (5 - 9),
               dom=lambda k: _isbit(k.v("c")), tags={"sel"}),
+        Entry("sel_ite_plaincond1", lambda k: k.br.if_then_else(1, k.S("x"), k.S("y")), ("x", "y"), ref=lambda k: k.v("x"),
+              dom=lambda k: fits(k.v("x"), k.n), tags={"sel"}),
+        Entry("sel_ite_plaincond0", lambda k: k.br.if_then_else(0, k.S("x"), k.S("y")), ("x", "y"), ref=lambda k: k.v("y"),
+              dom=lambda k: fits(k.v("x"), k.n), tags={"sel"}),
+        Entry("sel_ite_fxp_mixed", lambda k: _ite_bool_int(k), ("c", "x", "y"),
+              ref=lambda k: k.v("y") + k.v("c") * (k.v("x") - k.v("y")),
+              dom=lambda k: _isbit(k.v("c")) & _isbit(k.v("x")), tags={"sel"}),
     ]
 
 
